@@ -858,3 +858,105 @@ impl Modelled for TEncAsZ {
 		TEncAsZ { z: (), v: u16::from_val(&fields(v)[1]) }
 	}
 }
+
+/// transparent newtype made of zero-sized fields only
+#[derive(Encode, Decode, DecodeWithMemTracking, MaxEncodedLen, Debug, PartialEq)]
+#[repr(transparent)]
+pub struct TAllZ(pub PhantomData<u64>, pub ());
+impl Modelled for TAllZ {
+	fn ty() -> Ty {
+		Ty::Struct { name: "TAllZ".into(), fields: vec![FieldTy::plain(Ty::Unit), FieldTy::plain(Ty::Unit)] }
+	}
+	fn to_val(&self) -> Val {
+		Val::Tuple(vec![Val::Unit, Val::Unit])
+	}
+	fn from_val(_: &Val) -> Self {
+		TAllZ(PhantomData, ())
+	}
+}
+
+/// generic user-defined smart pointer relying on the default `WrapperTypeDecode::decode_wrapped`
+#[derive(Debug, PartialEq)]
+pub struct Shared<T>(pub Box<T>);
+impl<T> From<T> for Shared<T> {
+	fn from(v: T) -> Self {
+		Shared(Box::new(v))
+	}
+}
+impl<T> core::ops::Deref for Shared<T> {
+	type Target = T;
+	fn deref(&self) -> &T {
+		&self.0
+	}
+}
+impl<T> parity_scale_codec::WrapperTypeEncode for Shared<T> {}
+impl<T> parity_scale_codec::WrapperTypeDecode for Shared<T> {
+	type Wrapped = T;
+}
+impl<T: DecodeWithMemTracking> DecodeWithMemTracking for Shared<T> {}
+impl<T: Modelled> Modelled for Shared<T> {
+	fn ty() -> Ty {
+		Ty::ptr(T::ty(), PtrKind::Box)
+	}
+	fn to_val(&self) -> Val {
+		self.0.to_val()
+	}
+	fn from_val(v: &Val) -> Self {
+		Shared(Box::new(T::from_val(v)))
+	}
+	fn heap(&self, acc: &mut Heap) {
+		// the box is allocated by this harness type's own `From<T>` after decoding, not by the
+		// crate: only the wrapped value's payload is the decoder's business
+		(*self.0).heap(acc)
+	}
+}
+
+/// recursive type whose recursion goes through the user-defined wrapper
+#[derive(Encode, Decode, DecodeWithMemTracking, Debug, PartialEq)]
+pub enum WList {
+	Nil,
+	Cons(u8, Shared<WList>),
+}
+impl Modelled for WList {
+	fn ty() -> Ty {
+		static ONCE: std::sync::Once = std::sync::Once::new();
+		ONCE.call_once(|| {
+			register(
+				"WList",
+				Ty::Enum {
+					name: "WList".into(),
+					variants: vec![
+						VariantTy { name: "Nil".into(), index: 0, skipped: false, fields: vec![] },
+						VariantTy {
+							name: "Cons".into(),
+							index: 1,
+							skipped: false,
+							fields: vec![FieldTy::plain(Ty::u(1)), FieldTy::plain(Ty::ptr(Ty::Named("WList"), PtrKind::Box))],
+						},
+					],
+				},
+			)
+		});
+		Ty::Named("WList")
+	}
+	fn to_val(&self) -> Val {
+		let mut items = Vec::new();
+		let mut cur = self;
+		while let WList::Cons(x, next) = cur {
+			items.push(*x);
+			cur = &next.0;
+		}
+		let mut v = Val::Variant(0, vec![]);
+		for x in items.into_iter().rev() {
+			v = Val::Variant(1, vec![x.to_val(), v]);
+		}
+		v
+	}
+	fn from_val(v: &Val) -> Self {
+		match v {
+			Val::Variant(0, _) => WList::Nil,
+			Val::Variant(1, f) => WList::Cons(u8::from_val(&f[0]), Shared(Box::new(WList::from_val(&f[1])))),
+			_ => panic!("WList: {:?}", v),
+		}
+	}
+}
